@@ -63,26 +63,34 @@ fn mode_class(m: u32) -> &'static str {
     if m & 0o077 == 0 { "secure" } else { "loose" }
 }
 
-/// mode of the database file and of every sidecar next to it ("secure" iff all are owner-only)
-pub fn files_mode(p: &Path) -> String {
-    let Some(dir) = p.parent() else { return "none".into() };
+/// (mode of the database file, mode of the sidecars next to it): "none" | "secure" | "loose"
+pub fn files_modes(p: &Path) -> (String, String) {
+    let Some(dir) = p.parent() else { return ("none".into(), "none".into()) };
     let stem = p.file_name().unwrap().to_string_lossy().to_string();
-    let mut seen = false;
-    let mut loose = false;
+    let mut main = "none".to_string();
+    let mut side = "none".to_string();
     if let Ok(rd) = std::fs::read_dir(dir) {
         for e in rd.flatten() {
             let n = e.file_name().to_string_lossy().to_string();
             if n.starts_with(&stem) {
                 if let Ok(md) = e.metadata() {
-                    seen = true;
-                    if mode_class(md.permissions().mode()) == "loose" {
-                        loose = true;
+                    let m = mode_class(md.permissions().mode());
+                    if n == stem {
+                        main = m.to_string();
+                    } else if side != "loose" {
+                        side = m.to_string();
                     }
                 }
             }
         }
     }
-    if !seen { "none".into() } else if loose { "loose".into() } else { "secure".into() }
+    (main, side)
+}
+
+/// "secure" iff the database file and all its sidecars are owner-only
+pub fn files_mode(p: &Path) -> String {
+    let (m, s) = files_modes(p);
+    if m == "none" { "none".into() } else if m == "loose" || s == "loose" { "loose".into() } else { "secure".into() }
 }
 
 pub fn dir_mode(p: &Path, pre: bool) -> String {
@@ -232,7 +240,8 @@ impl Hist {
             Ok(Ok(h)) => ("Ok".to_string(), Some(h), String::new()),
         };
         let data = h.as_ref().map(tokens_of).unwrap_or_default();
-        sh.emit(json!({"op":"End","t":t,"p":pname,"res":cls,"mode":files_mode(pb),"dmode":dir_mode(pb, pre),"data":data,"detail":detail}));
+        let (mm, sm) = files_modes(pb);
+        sh.emit(json!({"op":"End","t":t,"p":pname,"res":cls,"mode":mm,"smode":sm,"dmode":dir_mode(pb, pre),"data":data,"detail":detail}));
         (cls, h)
     }
 
